@@ -1,24 +1,27 @@
-\* thorough, exhaustive: all sequences of two operations on the 2x2 matrices with three stored entries
+\* quick, exhaustive, one TLC run = asm + ops1 + block:
+\*  - every CSR/COO input within the Wild bounds (well-formed or not), every small well-formed CSR/COO
+\*    input, the constructors empty/diag/eye, all block layouts of at most 2x2 blocks of at most 1x1
+\*  - every single operation on every well-formed CSR-assembled matrix (OpForms)
 SPECIFICATION Spec
 CONSTANTS
-  Forms = {"csr"}
-  Shapes <- ShapesSq2
-  MinNnz = 3
-  MaxNnz = 3
-  WildM = 1
-  WildN = 1
+  Forms = {"csrwild", "coowild", "csr", "coo", "empty", "diag", "eye", "block"}
+  Shapes <- Shapes2
+  MinNnz = 0
+  MaxNnz = 4
+  WildM = 2
+  WildN = 2
   WildCooN = 1
-  WildNnz = 1
+  WildNnz = 2
   BlockHeights = {0, 1}
   BlockWidths = {0, 1}
-  MaxBlockRows = 1
-  MaxBlockCols = 1
+  MaxBlockRows = 2
+  MaxBlockCols = 2
   MaxBlockNnz = 1
   Dtypes = {"f", "c"}
   WildDtypes = {"f"}
   Ops = {"neg", "T", "scale", "div", "add", "sub", "submatrix", "pickle"}
   OpForms = {"csr"}
-  MaxSteps = 2
+  MaxSteps = 1
   MaxE = 2
   StrictOrder = TRUE
   LowerBound = TRUE
